@@ -1,6 +1,6 @@
 (* Latch/ProofsThm.v — the C17 statements derived from the invariant of reachable states. *)
 From Coq Require Import NArith List Bool Arith Lia Sorting.Sorted.
-From Verif Require Import Latch.Model Latch.ProofsOps Latch.ProofsBase Latch.ProofsInv Latch.ProofsAcq Latch.ProofsRel Latch.ProofsSys Latch.ProofsLive Latch.ProofsRec.
+From Verif Require Import Latch.Model Latch.ProofsOps Latch.ProofsBase Latch.ProofsInv Latch.ProofsAcq Latch.ProofsRel Latch.ProofsSys Latch.ProofsLive Latch.ProofsRec Latch.ProofsClient.
 Import ListNotations.
 
 Section Thm.
@@ -329,6 +329,55 @@ Proof.
   apply (acquire_loop_refines i L' r (length (lkeys (locks (lat s) i))) s P LT); [lia | exact A].
 Qed.
 
+(* ---------- the caller contract on the client actions of a run ---------- *)
+Lemma run_agree tr : forall s s' m m', reach_any s -> agree m s -> run tr s = Some s' ->
+  client_run (cproj sf ns tr s) m = Some m' -> agree m' s'.
+Proof.
+  induction tr as [|l tr IH]; simpl; intros s s' m m' R A E C.
+  - inversion E; inversion C; subst; auto.
+  - destruct (exec sf ns s l) as [s1|] eqn:X; [|discriminate].
+    rewrite client_run_app in C. destruct (client_run (cstep s l s1) m) as [m1|] eqn:C1; [|discriminate].
+    assert (R1 : reach_any s1) by (eapply r_step; eauto; destruct l; simpl; auto; exact Logic.I).
+    eapply IH; eauto. eapply step_agree; eauto. apply (any_Inv s R).
+Qed.
+Lemma client_run_ids tr : forall m m' i c, client_run tr m = Some m' -> cfind i m' = Some c ->
+  cfind i m <> None \/ In i (ids_of tr).
+Proof.
+  induction tr as [|e tr IH]; simpl; intros m m' i c R F.
+  - inversion R; subst. left. congruence.
+  - destruct e as [j st|j b|j cc]; destruct (cfind j m) as [[st0|st0 b0|]|] eqn:FJ; try discriminate;
+      try (destruct (_ || _); [|discriminate]);
+      (destruct (IH _ _ i c R F) as [N|N]; [|right; right; auto]);
+      rewrite cfind_cset in N; (destruct (Nat.eqb_spec j i); [subst; right; left; auto | left; auto]).
+Qed.
+
+(* a run whose client actions satisfy client_ok leaves no lock returned-but-not-unlocked *)
+Lemma client_ok_no_done tr s : run tr init_state = Some s -> client_okb (cproj sf ns tr init_state) = true ->
+  forall i, pc s i <> TDone.
+Proof.
+  intros E OK i P. unfold client_okb in OK.
+  destruct (client_run (cproj sf ns tr init_state) []) as [m|] eqn:C; [|discriminate].
+  assert (A : agree m s).
+  { eapply run_agree; eauto; [apply r_init | intros x; reflexivity]. }
+  pose proof (A i) as Ai. unfold expected in Ai. rewrite P in Ai.
+  destruct (client_run_ids _ _ _ _ _ C Ai) as [N|N]; [simpl in N; congruence|].
+  rewrite forallb_forall in OK. specialize (OK i N). rewrite Ai in OK. discriminate.
+Qed.
+
+(* the steps of the client THREADS inside Lock() and of run(): what goes on without any decision of the client *)
+Definition sys_label (l : label) : Prop := match l with LAcq _ | LPop | LRel | LWake | LTrig => True | _ => False end.
+Definition sys_stuck (s : state) : Prop := forall l s', exec sf ns s l = Some s' -> ~ sys_label l.
+
+Lemma live_client_ok tr s : Forall (allowed (@NoDup key)) tr -> run tr init_state = Some s ->
+  closed (gl s) = false -> client_okb (cproj sf ns tr init_state) = true -> sys_stuck s ->
+  (forall i, pc s i = TNew \/ pc s i = TRel) /\ (forall k, holderK (lat s) k = None) /\ (forall sl, waitS (lat s) sl = []).
+Proof.
+  intros F E NC OK SS. apply no_latch_held; auto.
+  - eapply run_reach; eauto. apply r_init.
+  - intros l s' X PL. destruct l; simpl in PL; try contradiction; try (eapply SS; eauto; exact Logic.I).
+    simpl in X. destruct (pc s i) eqn:P; try discriminate. eapply client_ok_no_done; eauto.
+Qed.
+
 (* ---------- what recycle may forget ---------- *)
 (* latch.recycle(t) on slot sl changes the node of a key only by dropping it, and only if nobody holds it and its
    maxCommitTS is at least 2 physical minutes older than t; held nodes and younger nodes are untouched *)
@@ -483,80 +532,3 @@ Proof.
 Qed.
 
 End Thm.
-
-(* ---------- concrete runs (one slot) ---------- *)
-Definition sf0 : key -> sid := fun _ => 0%N.
-(* T0 {1,2} start 1 commit 5; T1 {2} start 2; T2 {2} start 7 *)
-Definition tr_contend : list label :=
-  [LStart 0 [2;1]%N 1%N; LStart 1 [2]%N 2%N; LStart 2 [2]%N 7%N; LAcq 0; LAcq 0; LAcq 1].
-Definition tr_handoff : list label := tr_contend ++ [LUnlock 0 5%N; LPop; LRel].
-Definition tr_finish : list label :=
-  tr_handoff ++ [LRel; LWake; LTrig; LUnlock 1 0%N; LPop; LRel; LTrig; LAcq 2; LUnlock 2 9%N; LPop; LRel; LTrig].
-(* Close() while T1 waits behind T0; T0's UnLock then sends nothing *)
-Definition tr_closed : list label :=
-  [LStart 0 [2;1]%N 1%N; LStart 1 [2]%N 2%N; LAcq 0; LAcq 0; LAcq 1; LClose; LUnlock 0 5%N].
-
-(* H = lock 0 holds key 1, locks 1 and 2 wait for it; H releases (lock 1 picked, wake-up pending); a recycle with a
-   timestamp 3.5 minutes later drops the node of key 1 although lock 2 still waits for that key *)
-Definition ts_3u : ts := 55050240000%N.
-Definition tr_waited : list label :=
-  [LStart 0 [1]%N 1%N; LStart 1 [1]%N 5%N; LStart 2 [1]%N 6%N; LAcq 0; LAcq 1; LAcq 2; LUnlock 0 2%N; LPop; LRel].
-Definition tr_waited_rest : list label :=
-  [LRecycle 0%N ts_3u; LWake; LTrig; LUnlock 1 7%N; LPop; LRel; LWake; LTrig; LUnlock 2 0%N; LPop; LRel; LTrig].
-
-Lemma allowed_tr_finish : Forall (allowed (@NoDup key)) tr_finish.
-Proof. repeat constructor; simpl; auto; intros [H|[]]; discriminate. Qed.
-
-(* a Lock with a duplicated key blocks on itself: the hypothesis "distinct keys" of no_deadlock is necessary *)
-Lemma dup_key_self_deadlock :
-  exists s, run sf0 1 [LStart 0 [1;1]%N 5%N; LAcq 0; LAcq 0] init_state = Some s /\ pc s 0 = TWait /\
-            In 0 (waitS (lat s) 0%N) /\ closed (gl s) = false /\ quiescent sf0 1 s.
-Proof.
-  eexists. split; [vm_compute; reflexivity|]. split; [reflexivity|]. split; [left; reflexivity|]. split; [reflexivity|].
-  intros l s' E. destruct l; simpl; auto.
-  - destruct i as [|i]; simpl in E; discriminate.
-  - destruct i as [|i]; simpl in E; discriminate.
-  - simpl in E. discriminate.
-  - simpl in E. discriminate.
-  - simpl in E. discriminate.
-  - simpl in E. discriminate.
-Qed.
-
-(* after Close() the lock of a later UnLock is dropped: its latches stay held and a blocked Lock() never returns *)
-Lemma closed_strands_waiter :
-  exists s, run sf0 1 tr_closed init_state = Some s /\ reach sf0 1 s /\ closed (gl s) = true /\
-            pc s 0 = TDrop /\ pc s 1 = TWait /\ holderK sf0 (lat s) 2%N = Some 0 /\ quiescent sf0 1 s.
-Proof.
-  destruct (run sf0 1 tr_closed init_state) as [s|] eqn:E; [|vm_compute in E; discriminate].
-  exists s. split; auto. split.
-  { eapply run_reach; [apply r_init | | exact E]. repeat constructor; simpl; auto; intros [H|[]]; discriminate. }
-  vm_compute in E. inversion E; subst s; clear E.
-  split; [reflexivity|]. split; [reflexivity|]. split; [reflexivity|]. split; [reflexivity|].
-  intros l s' E. destruct l; simpl; auto.
-  - destruct i as [|[|i]]; simpl in E; discriminate.
-  - destruct i as [|[|i]]; simpl in E; discriminate.
-  - simpl in E. discriminate.
-  - simpl in E. discriminate.
-  - simpl in E. discriminate.
-  - simpl in E. discriminate.
-Qed.
-
-Lemma recycle_waited_node_witness :
-  exists s, run sf0 1 tr_waited init_state = Some s /\ reach_any sf0 1 s /\
-    In 2 (waitS (lat s) (sf0 1%N)) /\ key_at (locks (lat s) 2) = Some 1%N /\
-    nodeK sf0 (lat s) 1%N = Some (mkNode 1%N 2%N None) /\
-    nodeK sf0 (recycle_slot (lat s) 0%N ts_3u) 1%N = None.
-Proof.
-  destruct (run sf0 1 tr_waited init_state) as [s|] eqn:E; [|vm_compute in E; discriminate].
-  exists s. split; auto. split.
-  { apply reach_reach_any. eapply run_reach; [apply r_init | | exact E]. repeat constructor; simpl; auto; intros []. }
-  vm_compute in E. inversion E; subst s; clear E. vm_compute. repeat split; auto.
-Qed.
-
-Lemma recycle_waited_node_refuted :
-  exists sf ns s w k sl t, reach_any sf ns s /\ In w (waitS (lat s) (sf k)) /\ key_at (locks (lat s) w) = Some k /\
-    nodeK sf (lat s) k <> None /\ nodeK sf (recycle_slot (lat s) sl t) k = None.
-Proof.
-  destruct recycle_waited_node_witness as (s & _ & R & W & K & N & D).
-  exists sf0, 1%N, s, 2, 1%N, 0%N, ts_3u. repeat split; auto. rewrite N. discriminate.
-Qed.
